@@ -1,6 +1,614 @@
-//! C06 (stub)
+//! C06 — comparison, equality, hashing and conditional selection are mutually coherent.
+//!
+//! Oracle: the order of the represented integers (BigUint / BigInt `cmp`), plain reasoning for
+//! "select returns exactly the chosen operand" and for `is_some` of option-like results.
+//! Pairs: the generic pair corpus plus a == b, values differing in exactly one limb (lowest,
+//! highest, middle; by one bit or by all bits), only in the sign bit, off by one (borrow through
+//! equal high limbs), 0 vs MIN/MAX, and for BoxedUint zero-padded equal values of different
+//! precisions.
+//!
+//! Two cases are expected to fire on crypto-bigint 0.7.0-pre and are kept apart from the counted
+//! equal-precision checks: `... [cross-precision hash]` (Eq zero-pads, Hash is derived over the raw
+//! limb slice) and `... [cross-precision cmp_vartime]` (only the limbs of `self` are looked at;
+//! a `debug_assert` on the lengths fires first in this profile).
+
 use super::prelude::*;
+use crypto_bigint::subtle::{ConditionallyNegatable, ConstantTimeGreater, ConstantTimeLess};
+use crypto_bigint::{CheckedAdd, CheckedSub, ConstantTimeSelect, Integer, Wrapping};
+use std::hash::{DefaultHasher, Hash, Hasher};
+
+fn hash_of<T: Hash>(t: &T) -> u64 {
+    let mut h = DefaultHasher::new();
+    t.hash(&mut h);
+    h.finish()
+}
+
+fn ch(b: bool) -> Choice {
+    Choice::from(b as u8)
+}
+
+fn cch(b: bool) -> ConstChoice {
+    if b { ConstChoice::TRUE } else { ConstChoice::FALSE }
+}
+
+/// Unwrap the result of a guarded call, or report the panic and skip the dependent checks.
+macro_rules! ok_or_report {
+    ($c:ident, $r:expr; $($n:ident),*) => {
+        match $r {
+            Ok(v) => Some(v),
+            Err(e) => {
+                let r: Result<(), String> = Err(e);
+                no_panic!($c, r; $($n),*);
+                None
+            }
+        }
+    };
+}
+
+// ---------------------------------------------------------------- corpora
+
+/// Limb positions used for "differs in exactly one limb".
+fn positions(l: usize) -> Vec<usize> {
+    let mut p: Vec<usize> = if l <= 6 { (0..l).collect() } else { vec![0, 1, l / 2 - 1, l / 2, l - 2, l - 1] };
+    p.dedup();
+    p
+}
+
+/// Pairs (a, b) of values below 2^(64 l) relevant for comparisons.
+fn cmp_pairs(c: &mut Ctx, l: usize) -> Vec<(BigUint, BigUint)> {
+    let bits = 64 * l as u32;
+    let max = mask(bits);
+    let mut v = c.inputs2(l, l);
+    let n = (c.cap / 16).clamp(16, 256);
+    let mut base = c.edges(l, n);
+    for _ in 0..(c.iters / 8).max(8) {
+        base.push(c.rnd(l));
+    }
+    for a in &base {
+        v.push((a.clone(), a.clone()));
+        for i in positions(l) {
+            for d in [1u64, 1 << 63, u64::MAX, c.word() | 1] {
+                let b = a ^ (BigUint::from(d) << (64 * i));
+                v.push((a.clone(), b.clone()));
+                v.push((b, a.clone()));
+            }
+        }
+        // off by one: the difference ripples through equal / all-ones / all-zero limbs
+        let up = (a + 1u32) & &max;
+        let down = (a + &max) & &max;
+        v.push((a.clone(), up.clone()));
+        v.push((up, a.clone()));
+        v.push((a.clone(), down.clone()));
+        v.push((down, a.clone()));
+        // complement
+        v.push((a.clone(), &max ^ a));
+    }
+    // 0 vs MIN / MAX (signed and unsigned extremes), extremes against each other
+    let ext = [BigUint::zero(), BigUint::one(), pow2(bits - 1), pow2(bits - 1) - 1u32, pow2(bits - 1) + 1u32, max.clone(), &max - 1u32];
+    for a in &ext {
+        for b in &ext {
+            v.push((a.clone(), b.clone()));
+        }
+    }
+    v
+}
+
+/// Operand pairs for the selection cases: differing in every limb, in exactly one limb, equal.
+fn select_pairs(c: &mut Ctx, l: usize) -> Vec<(BigUint, BigUint)> {
+    let max = mask(64 * l as u32);
+    let mut v = Vec::new();
+    let n = (c.cap / 32).clamp(16, 128);
+    let mut base = c.edges(l, n);
+    for _ in 0..(c.iters / 8).max(16) {
+        base.push(c.rnd(l));
+    }
+    for a in base {
+        // every limb differs (complement; xor with a word pattern that is non-zero in every limb)
+        v.push((a.clone(), &max ^ &a));
+        let pat: Vec<u64> = (0..l).map(|_| c.word() | 1).collect();
+        v.push((a.clone(), &a ^ words_to_big(&pat)));
+        let ones: Vec<u64> = vec![1; l];
+        v.push((a.clone(), &a ^ words_to_big(&ones)));
+        // exactly one limb differs
+        for i in positions(l) {
+            let d = [1u64, 1 << 63, u64::MAX, c.word() | 1][c.below(4)];
+            v.push((a.clone(), &a ^ (BigUint::from(d) << (64 * i))));
+        }
+        v.push((a.clone(), a.clone()));
+        let r = c.rnd(l);
+        v.push((a, r));
+    }
+    v.push((BigUint::zero(), max.clone()));
+    v.push((max, BigUint::zero()));
+    v
+}
+
+// ---------------------------------------------------------------- Uint
+
+fn uint_cmp<const L: usize>(c: &mut Ctx) {
+    for (x, y) in cmp_pairs(c, L) {
+        if c.done() {
+            return;
+        }
+        let (a, b) = (bu::<L>(&x), bu::<L>(&y));
+        let ord = x.cmp(&y);
+        check!(c, call(|| cb(a.ct_eq(&b))), x == y; x, y);
+        check!(c, call(|| cb(a.ct_ne(&b))), x != y; x, y);
+        check!(c, call(|| cb(a.ct_lt(&b))), x < y; x, y);
+        check!(c, call(|| cb(a.ct_gt(&b))), x > y; x, y);
+        check!(c, call(|| a == b), x == y; x, y);
+        check!(c, call(|| a != b), x != y; x, y);
+        check!(c, call(|| a < b), x < y; x, y);
+        check!(c, call(|| a <= b), x <= y; x, y);
+        check!(c, call(|| a > b), x > y; x, y);
+        check!(c, call(|| a >= b), x >= y; x, y);
+        check!(c, call(|| Ord::cmp(&a, &b)), ord; x, y);
+        check!(c, call(|| PartialOrd::partial_cmp(&a, &b)), Some(ord); x, y);
+        check!(c, call(|| a.cmp_vartime(&b)), ord; x, y);
+        check!(c, call(|| Ord::max(a, b)).map(|v| ub(&v)), x.clone().max(y.clone()); x, y);
+        check!(c, call(|| Ord::min(a, b)).map(|v| ub(&v)), x.clone().min(y.clone()); x, y);
+        check!(c, call(|| cb(Wrapping(a).ct_eq(&Wrapping(b)))), x == y; x, y);
+        if x == y {
+            let _ = holds!(c, hash_of(&a) == hash_of(&b), "a == b => hash(a) == hash(b)"; x, y);
+        }
+        // Eq and Hash of the crate value itself must agree too (whatever the oracle says)
+        if call(|| a == b) == Ok(true) {
+            let _ = holds!(c, hash_of(&a) == hash_of(&b), "crate a == b => hash(a) == hash(b)"; x, y);
+        }
+    }
+}
+
+fn uint_predicates<const L: usize>(c: &mut Ctx) {
+    let bits = 64 * L as u32;
+    let mut vals = c.inputs1(L);
+    for k in 0..bits {
+        vals.push(pow2(k));
+        vals.push(pow2(k) + 1u32);
+    }
+    for x in vals {
+        if c.done() {
+            return;
+        }
+        let x = x & mask(bits);
+        let a = bu::<L>(&x);
+        let (z, odd) = (x.is_zero(), x.bit(0));
+        check!(c, call(|| cb(crypto_bigint::Zero::is_zero(&a))), z; x);
+        check!(c, call(|| Zero::is_zero(&a)), z; x);
+        check!(c, call(|| One::is_one(&a)), x.is_one(); x);
+        check!(c, call(|| cb(Integer::is_odd(&a))), odd; x);
+        check!(c, call(|| cb(Integer::is_even(&a))), !odd; x);
+        // option-like constructors: is_some exactly as documented
+        let nz = if z { None } else { Some(x.clone()) };
+        let od = if odd { Some(x.clone()) } else { None };
+        check!(c, call(|| (ccb(a.to_nz().is_some()), ccb(a.to_nz().is_none()))), (!z, z); x);
+        check!(c, call(|| copt(a.to_nz()).map(|v| ub(v.as_ref()))), nz.clone(); x);
+        check!(c, call(|| opt(NonZero::new(a)).map(|v| ub(v.as_ref()))), nz.clone(); x);
+        check!(c, call(|| (ccb(a.to_odd().is_some()), ccb(a.to_odd().is_none()))), (odd, !odd); x);
+        check!(c, call(|| copt(a.to_odd()).map(|v| ub(v.as_ref()))), od.clone(); x);
+        check!(c, call(|| opt(Odd::new(a)).map(|v| ub(v.as_ref()))), od.clone(); x);
+        // value equal to itself, hashes deterministic over a rebuilt copy
+        let a2 = Uint::<L>::from_words(a.to_words());
+        let _ = holds!(c, a == a2 && hash_of(&a) == hash_of(&a2), "x == x and hash(x) == hash(copy of x)"; x);
+    }
+}
+
+fn uint_select<const L: usize>(c: &mut Ctx) {
+    let bits = 64 * L as u32;
+    for (x, y) in select_pairs(c, L) {
+        let (a, b) = (bu::<L>(&x), bu::<L>(&y));
+        for t in [false, true] {
+            if c.done() {
+                return;
+            }
+            // `a` if the choice is 0, `b` if it is 1 — the whole value
+            let sel = if t { y.clone() } else { x.clone() };
+            let swapped = if t { (y.clone(), x.clone()) } else { (x.clone(), y.clone()) };
+            check!(c, call(|| Uint::conditional_select(&a, &b, ch(t))).map(|v| ub(&v)), sel.clone(); x, y, t);
+            check!(c, call(|| <Uint<L> as ConstantTimeSelect>::ct_select(&a, &b, ch(t))).map(|v| ub(&v)), sel.clone(); x, y, t);
+            check!(c, call(|| { let mut r = a; r.conditional_assign(&b, ch(t)); r }).map(|v| ub(&v)), sel.clone(); x, y, t);
+            check!(c, call(|| { let mut r = a; ConstantTimeSelect::ct_assign(&mut r, &b, ch(t)); r }).map(|v| ub(&v)), sel.clone(); x, y, t);
+            check!(c, call(|| { let (mut p, mut q) = (a, b); Uint::conditional_swap(&mut p, &mut q, ch(t)); (ub(&p), ub(&q)) }), swapped.clone(); x, y, t);
+            check!(c, call(|| { let (mut p, mut q) = (a, b); ConstantTimeSelect::ct_swap(&mut p, &mut q, ch(t)); (ub(&p), ub(&q)) }), swapped.clone(); x, y, t);
+            check!(c, call(|| Wrapping::conditional_select(&Wrapping(a), &Wrapping(b), ch(t))).map(|v| ub(&v.0)), sel.clone(); x, y, t);
+            if !x.is_zero() && !y.is_zero() {
+                check!(c, call(|| NonZero::conditional_select(&nzu::<L>(&x), &nzu::<L>(&y), ch(t))).map(|v| ub(v.as_ref())), sel.clone(); x, y, t);
+            }
+            if x.bit(0) && y.bit(0) {
+                check!(c, call(|| Odd::conditional_select(&oddu::<L>(&x), &oddu::<L>(&y), ch(t))).map(|v| ub(v.as_ref())), sel.clone(); x, y, t);
+            }
+            // conditional negation: -x mod 2^BITS or x, nothing in between
+            let neg = if t { (pow2(bits) - &x) & mask(bits) } else { x.clone() };
+            check!(c, call(|| a.wrapping_neg_if(cch(t))).map(|v| ub(&v)), neg.clone(); x, t);
+            // ConstCtOption / CtOption: unwrap_or gives the value exactly when is_some
+            let sum = &x + &y;
+            let fits_ = fits(&sum, bits);
+            if let Some(o) = ok_or_report!(c, call(|| CheckedAdd::checked_add(&a, &b)); x, y) {
+                check!(c, call(|| (cb(o.is_some()), cb(o.is_none()))), (fits_, !fits_); x, y);
+                let dflt = if t { Uint::<L>::MAX } else { Uint::<L>::ZERO };
+                let exp = if fits_ { sum.clone() } else { ub(&dflt) };
+                check!(c, call(|| o.unwrap_or(dflt)).map(|v| ub(&v)), exp; x, y, t);
+            }
+            let s = (big_to_words(&y, 1)[0] % (2 * bits as u64 + 2)) as u32;
+            if let Some(o) = ok_or_report!(c, call(|| a.overflowing_shl(s)); x, s) {
+                let some = s < bits;
+                check!(c, call(|| (ccb(o.is_some()), ccb(o.is_none()))), (some, !some); x, s);
+                let dflt = if t { b } else { Uint::<L>::MAX };
+                let exp = if some { (&x << s as usize) & mask(bits) } else { ub(&dflt) };
+                check!(c, call(|| o.clone().unwrap_or(dflt)).map(|v| ub(&v)), exp.clone(); x, y, s, t);
+                check!(c, call(|| opt(CtOption::from(o.clone())).is_some()), some; x, s);
+                check!(c, call(|| copt(o.clone()).is_some()), some; x, s);
+                // documented: unwrap / expect panic when the value is none
+                if some {
+                    check!(c, call(|| o.clone().unwrap()).map(|v| ub(&v)), exp.clone(); x, s);
+                    check!(c, call(|| o.clone().expect("some")).map(|v| ub(&v)), exp; x, s);
+                } else if t {
+                    must_panic!(c, call(|| o.clone().unwrap()).map(|v| ub(&v)); x, s);
+                    must_panic!(c, call(|| o.clone().expect("some")).map(|v| ub(&v)); x, s);
+                }
+            }
+        }
+    }
+}
+
+// ---------------------------------------------------------------- Int
+
+fn int_cmp<const L: usize>(c: &mut Ctx) {
+    let bits = 64 * L as u32;
+    for (xu, yu) in cmp_pairs(c, L) {
+        if c.done() {
+            return;
+        }
+        let (x, y) = (wrap_signed(&BigInt::from(xu), bits), wrap_signed(&BigInt::from(yu), bits));
+        let (a, b) = (bi::<L>(&x), bi::<L>(&y));
+        let ord = x.cmp(&y);
+        check!(c, call(|| cb(a.ct_eq(&b))), x == y; x, y);
+        check!(c, call(|| cb(a.ct_ne(&b))), x != y; x, y);
+        check!(c, call(|| cb(a.ct_lt(&b))), x < y; x, y);
+        check!(c, call(|| cb(a.ct_gt(&b))), x > y; x, y);
+        check!(c, call(|| a == b), x == y; x, y);
+        check!(c, call(|| a != b), x != y; x, y);
+        check!(c, call(|| a < b), x < y; x, y);
+        check!(c, call(|| a <= b), x <= y; x, y);
+        check!(c, call(|| a > b), x > y; x, y);
+        check!(c, call(|| a >= b), x >= y; x, y);
+        check!(c, call(|| Ord::cmp(&a, &b)), ord; x, y);
+        check!(c, call(|| PartialOrd::partial_cmp(&a, &b)), Some(ord); x, y);
+        check!(c, call(|| a.cmp_vartime(&b)), ord; x, y);
+        check!(c, call(|| Ord::max(a, b)).map(|v| ib(&v)), x.clone().max(y.clone()); x, y);
+        check!(c, call(|| Ord::min(a, b)).map(|v| ib(&v)), x.clone().min(y.clone()); x, y);
+        if x == y {
+            let _ = holds!(c, hash_of(&a) == hash_of(&b), "a == b => hash(a) == hash(b)"; x, y);
+        }
+        if call(|| a == b) == Ok(true) {
+            let _ = holds!(c, hash_of(&a) == hash_of(&b), "crate a == b => hash(a) == hash(b)"; x, y);
+        }
+    }
+}
+
+fn int_predicates<const L: usize>(c: &mut Ctx) {
+    let bits = 64 * L as u32;
+    let mut vals = c.inputs1(L);
+    for k in 0..bits {
+        vals.push(pow2(k));
+        vals.push(mask(bits) ^ pow2(k));
+    }
+    for xu in vals {
+        if c.done() {
+            return;
+        }
+        let x = wrap_signed(&BigInt::from(xu), bits);
+        let a = bi::<L>(&x);
+        let (z, neg) = (x.is_zero(), x < BigInt::zero());
+        let odd = wrap_unsigned(&x, bits).bit(0);
+        check!(c, call(|| ccb(a.is_negative())), neg; x);
+        check!(c, call(|| ccb(a.is_positive())), !neg && !z; x);
+        check!(c, call(|| ccb(a.is_min())), x == smin(bits); x);
+        check!(c, call(|| ccb(a.is_max())), x == smax(bits); x);
+        check!(c, call(|| cb(crypto_bigint::Zero::is_zero(&a))), z; x);
+        check!(c, call(|| Zero::is_zero(&a)), z; x);
+        check!(c, call(|| One::is_one(&a)), x.is_one(); x);
+        let nz = if z { None } else { Some(x.clone()) };
+        let od = if odd { Some(x.clone()) } else { None };
+        check!(c, call(|| (ccb(a.to_nz().is_some()), ccb(a.to_nz().is_none()))), (!z, z); x);
+        check!(c, call(|| copt(a.to_nz()).map(|v| ib(v.as_ref()))), nz.clone(); x);
+        check!(c, call(|| opt(NonZero::new(a)).map(|v| ib(v.as_ref()))), nz; x);
+        check!(c, call(|| (ccb(a.to_odd().is_some()), ccb(a.to_odd().is_none()))), (odd, !odd); x);
+        check!(c, call(|| copt(a.to_odd()).map(|v| ib(v.as_ref()))), od; x);
+        // checked_neg: none exactly for MIN
+        let e = if x == smin(bits) { None } else { Some(-&x) };
+        check!(c, call(|| copt(a.checked_neg()).map(|v| ib(&v))), e.clone(); x);
+        check!(c, call(|| (ccb(a.checked_neg().is_some()), ccb(a.checked_neg().is_none()))), (e.is_some(), e.is_none()); x);
+        check!(c, call(|| a.checked_neg().unwrap_or(Int::<L>::ONE)).map(|v| ib(&v)), e.clone().unwrap_or_else(BigInt::one); x);
+        // abs / sign split and back: new_from_abs_sign is some exactly when the magnitude fits
+        let mag = x.magnitude().clone();
+        check!(c, call(|| { let (m, s) = a.abs_sign(); (ub(&m), ccb(s)) }), (mag.clone(), neg); x);
+        check!(c, call(|| copt(Int::<L>::new_from_abs_sign(bu::<L>(&mag), cch(neg))).map(|v| ib(&v))), Some(x.clone()); x);
+        let um = wrap_unsigned(&x, bits); // the same bits as an unsigned magnitude
+        for sg in [false, true] {
+            let val = if sg { -BigInt::from(um.clone()) } else { BigInt::from(um.clone()) };
+            let e = if fits_signed(&val, bits) { Some(val) } else { None };
+            check!(c, call(|| copt(Int::<L>::new_from_abs_sign(bu::<L>(&um), cch(sg))).map(|v| ib(&v))), e; um, sg);
+        }
+    }
+}
+
+fn int_select<const L: usize>(c: &mut Ctx) {
+    let bits = 64 * L as u32;
+    for (xu, yu) in select_pairs(c, L) {
+        let (x, y) = (wrap_signed(&BigInt::from(xu), bits), wrap_signed(&BigInt::from(yu), bits));
+        let (a, b) = (bi::<L>(&x), bi::<L>(&y));
+        for t in [false, true] {
+            if c.done() {
+                return;
+            }
+            let sel = if t { y.clone() } else { x.clone() };
+            let swapped = if t { (y.clone(), x.clone()) } else { (x.clone(), y.clone()) };
+            check!(c, call(|| Int::conditional_select(&a, &b, ch(t))).map(|v| ib(&v)), sel.clone(); x, y, t);
+            check!(c, call(|| <Int<L> as ConstantTimeSelect>::ct_select(&a, &b, ch(t))).map(|v| ib(&v)), sel.clone(); x, y, t);
+            check!(c, call(|| { let mut r = a; r.conditional_assign(&b, ch(t)); r }).map(|v| ib(&v)), sel.clone(); x, y, t);
+            check!(c, call(|| { let mut r = a; ConstantTimeSelect::ct_assign(&mut r, &b, ch(t)); r }).map(|v| ib(&v)), sel.clone(); x, y, t);
+            check!(c, call(|| { let (mut p, mut q) = (a, b); Int::conditional_swap(&mut p, &mut q, ch(t)); (ib(&p), ib(&q)) }), swapped.clone(); x, y, t);
+            check!(c, call(|| { let (mut p, mut q) = (a, b); ConstantTimeSelect::ct_swap(&mut p, &mut q, ch(t)); (ib(&p), ib(&q)) }), swapped; x, y, t);
+            // wrapping_neg_if: -x (MIN stays MIN, documented) or x
+            let neg = if t { wrap_signed(&-&x, bits) } else { x.clone() };
+            check!(c, call(|| a.wrapping_neg_if(cch(t))).map(|v| ib(&v)), neg; x, t);
+            // Int::checked_add (ConstCtOption) and the CheckedAdd / CheckedSub traits (CtOption)
+            let sum = &x + &y;
+            let ok = fits_signed(&sum, bits);
+            let dflt = if t { Int::<L>::MIN } else { Int::<L>::MINUS_ONE };
+            if let Some(o) = ok_or_report!(c, call(|| a.checked_add(&b)); x, y) {
+                check!(c, call(|| (ccb(o.is_some()), ccb(o.is_none()))), (ok, !ok); x, y);
+                check!(c, call(|| o.clone().unwrap_or(dflt)).map(|v| ib(&v)), if ok { sum.clone() } else { ib(&dflt) }; x, y, t);
+            }
+            check!(c, call(|| opt(CheckedAdd::checked_add(&a, &b)).map(|v| ib(&v))), if ok { Some(sum.clone()) } else { None }; x, y);
+            let diff = &x - &y;
+            let okd = fits_signed(&diff, bits);
+            if let Some(o) = ok_or_report!(c, call(|| CheckedSub::checked_sub(&a, &b)); x, y) {
+                check!(c, call(|| (cb(o.is_some()), cb(o.is_none()))), (okd, !okd); x, y);
+                check!(c, call(|| o.unwrap_or(dflt)).map(|v| ib(&v)), if okd { diff.clone() } else { ib(&dflt) }; x, y, t);
+            }
+        }
+    }
+}
+
+// ---------------------------------------------------------------- Limb
+
+fn limb_cmp(c: &mut Ctx) {
+    for (x, y) in cmp_pairs(c, 1) {
+        if c.done() {
+            return;
+        }
+        let (a, b) = (bl(&x), bl(&y));
+        let ord = x.cmp(&y);
+        check!(c, call(|| cb(a.ct_eq(&b))), x == y; x, y);
+        check!(c, call(|| cb(a.ct_ne(&b))), x != y; x, y);
+        check!(c, call(|| cb(a.ct_lt(&b))), x < y; x, y);
+        check!(c, call(|| cb(a.ct_gt(&b))), x > y; x, y);
+        check!(c, call(|| a == b), x == y; x, y);
+        check!(c, call(|| a != b), x != y; x, y);
+        check!(c, call(|| a < b), x < y; x, y);
+        check!(c, call(|| a <= b), x <= y; x, y);
+        check!(c, call(|| a > b), x > y; x, y);
+        check!(c, call(|| a >= b), x >= y; x, y);
+        check!(c, call(|| Ord::cmp(&a, &b)), ord; x, y);
+        check!(c, call(|| PartialOrd::partial_cmp(&a, &b)), Some(ord); x, y);
+        check!(c, call(|| a.cmp_vartime(&b)), ord; x, y);
+        check!(c, call(|| a.eq_vartime(&b)), x == y; x, y);
+        if x == y {
+            let _ = holds!(c, hash_of(&a) == hash_of(&b), "a == b => hash(a) == hash(b)"; x, y);
+        }
+        // predicates
+        check!(c, call(|| cb(a.is_odd())), x.bit(0); x);
+        check!(c, call(|| cb(crypto_bigint::Zero::is_zero(&a))), x.is_zero(); x);
+        check!(c, call(|| Zero::is_zero(&a)), x.is_zero(); x);
+        check!(c, call(|| One::is_one(&a)), x.is_one(); x);
+        check!(c, call(|| (ccb(a.to_nz().is_some()), ccb(a.to_nz().is_none()))), (!x.is_zero(), x.is_zero()); x);
+        check!(c, call(|| opt(NonZero::new(a)).map(|v| lb(*v.as_ref()))), if x.is_zero() { None } else { Some(x.clone()) }; x);
+        // selection
+        for t in [false, true] {
+            let sel = if t { y.clone() } else { x.clone() };
+            let swapped = if t { (y.clone(), x.clone()) } else { (x.clone(), y.clone()) };
+            check!(c, call(|| Limb::conditional_select(&a, &b, ch(t))).map(lb), sel.clone(); x, y, t);
+            check!(c, call(|| <Limb as ConstantTimeSelect>::ct_select(&a, &b, ch(t))).map(lb), sel.clone(); x, y, t);
+            check!(c, call(|| { let mut r = a; r.conditional_assign(&b, ch(t)); r }).map(lb), sel.clone(); x, y, t);
+            check!(c, call(|| { let mut r = a; ConstantTimeSelect::ct_assign(&mut r, &b, ch(t)); r }).map(lb), sel; x, y, t);
+            check!(c, call(|| { let (mut p, mut q) = (a, b); Limb::conditional_swap(&mut p, &mut q, ch(t)); (lb(p), lb(q)) }), swapped.clone(); x, y, t);
+            check!(c, call(|| { let (mut p, mut q) = (a, b); ConstantTimeSelect::ct_swap(&mut p, &mut q, ch(t)); (lb(p), lb(q)) }), swapped; x, y, t);
+        }
+        let sum = &x + &y;
+        check!(c, call(|| opt(CheckedAdd::checked_add(&a, &b)).map(lb)), if fits(&sum, 64) { Some(sum) } else { None }; x, y);
+        check!(c, call(|| opt(CheckedSub::checked_sub(&a, &b)).map(lb)), if x >= y { Some(&x - &y) } else { None }; x, y);
+    }
+}
+
+// ---------------------------------------------------------------- ConstChoice
+
+fn const_choice(c: &mut Ctx) {
+    for t in [false, true] {
+        let k = cch(t);
+        check!(c, call(|| ccb(k)), t; t);
+        check!(c, call(|| cb(Choice::from(k))), t; t);
+        check!(c, call(|| ccb(ConstChoice::from(ch(t)))), t; t);
+        check!(c, call(|| ConstChoice::from(ch(t)) == k), true; t);
+        for u in [false, true] {
+            check!(c, call(|| cch(t) == cch(u)), t == u; t, u);
+        }
+    }
+    check!(c, call(|| (ccb(ConstChoice::TRUE), ccb(ConstChoice::FALSE))), (true, false););
+}
+
+// ---------------------------------------------------------------- BoxedUint
+
+/// Pairs for two precisions: the generic corpus plus equal values (zero padded on one side),
+/// values differing only above the shorter precision, only in the lowest limb, off by one.
+fn boxed_pairs(c: &mut Ctx, la: usize, lb_: usize) -> Vec<(BigUint, BigUint)> {
+    let lo = la.min(lb_);
+    let (ma, mb) = (mask(64 * la as u32), mask(64 * lb_ as u32));
+    let mut v = c.inputs2(la, lb_);
+    let n = (c.cap / 16).clamp(8, 48);
+    let mut base = c.edges(lo, n);
+    for _ in 0..(c.iters / 8).max(8) {
+        base.push(c.rnd(lo));
+    }
+    for e in base {
+        v.push((e.clone(), e.clone()));
+        v.push((e.clone(), (&e + 1u32) & &mb));
+        v.push(((&e + 1u32) & &ma, e.clone()));
+        v.push((e.clone(), &e ^ BigUint::one()));
+        for i in 0..la.max(lb_) {
+            for d in [1u64, 1 << 63, u64::MAX] {
+                let f = &e ^ (BigUint::from(d) << (64 * i));
+                if f <= mb {
+                    v.push((e.clone(), f.clone()));
+                }
+                if f <= ma {
+                    v.push((f, e.clone()));
+                }
+            }
+        }
+    }
+    v
+}
+
+const BOXED_SHAPES: [(usize, usize); 13] = [(1, 1), (2, 2), (3, 3), (4, 4), (5, 5), (1, 2), (2, 1), (1, 4), (4, 1), (2, 3), (3, 2), (3, 4), (5, 2)];
+
+fn boxed_cmp(c: &mut Ctx) {
+    for (la, lb_) in BOXED_SHAPES {
+        for (x, y) in c.scaled(BOXED_SHAPES.len(), |c| boxed_pairs(c, la, lb_)) {
+            if c.done() {
+                return;
+            }
+            let (a, b) = (bx(&x, la), bx(&y, lb_));
+            let ord = x.cmp(&y);
+            check!(c, call(|| cb(a.ct_eq(&b))), x == y; x, y, la, lb_);
+            check!(c, call(|| cb(a.ct_ne(&b))), x != y; x, y, la, lb_);
+            check!(c, call(|| cb(a.ct_lt(&b))), x < y; x, y, la, lb_);
+            check!(c, call(|| cb(a.ct_gt(&b))), x > y; x, y, la, lb_);
+            check!(c, call(|| a == b), x == y; x, y, la, lb_);
+            check!(c, call(|| a != b), x != y; x, y, la, lb_);
+            check!(c, call(|| a < b), x < y; x, y, la, lb_);
+            check!(c, call(|| a <= b), x <= y; x, y, la, lb_);
+            check!(c, call(|| a > b), x > y; x, y, la, lb_);
+            check!(c, call(|| a >= b), x >= y; x, y, la, lb_);
+            check!(c, call(|| Ord::cmp(&a, &b)), ord; x, y, la, lb_);
+            check!(c, call(|| PartialOrd::partial_cmp(&a, &b)), Some(ord); x, y, la, lb_);
+            if la == lb_ {
+                check!(c, call(|| a.cmp_vartime(&b)), ord; x, y, la, lb_);
+                if x == y {
+                    let _ = holds!(c, hash_of(&a) == hash_of(&b), "a == b => hash(a) == hash(b) (equal precision)"; x, y, la, lb_);
+                }
+            }
+        }
+    }
+}
+
+/// `a == b => hash(a) == hash(b)` for operands of different precisions.
+fn boxed_hash_cross(c: &mut Ctx) {
+    for (la, lb_) in BOXED_SHAPES {
+        if la == lb_ {
+            continue;
+        }
+        for (x, y) in c.scaled(BOXED_SHAPES.len(), |c| boxed_pairs(c, la, lb_)) {
+            if c.done() {
+                return;
+            }
+            let (a, b) = (bx(&x, la), bx(&y, lb_));
+            if call(|| a == b) == Ok(true) {
+                let _ = holds!(c, hash_of(&a) == hash_of(&b), "a == b => hash(a) == hash(b) (different precisions)"; x, y, la, lb_);
+            }
+        }
+    }
+}
+
+/// `cmp_vartime` for operands of different precisions (no precondition is documented).
+fn boxed_cmp_vartime_cross(c: &mut Ctx) {
+    for (la, lb_) in BOXED_SHAPES {
+        if la == lb_ {
+            continue;
+        }
+        for (x, y) in c.scaled(BOXED_SHAPES.len(), |c| boxed_pairs(c, la, lb_)) {
+            if c.done() {
+                return;
+            }
+            let (a, b) = (bx(&x, la), bx(&y, lb_));
+            check!(c, call(|| a.cmp_vartime(&b)), x.cmp(&y); x, y, la, lb_);
+        }
+    }
+}
+
+fn boxed_predicates(c: &mut Ctx) {
+    for nl in [1usize, 2, 3, 4, 5] {
+        let mut vals = c.scaled(5, |c| c.inputs1(nl));
+        for k in 0..64 * nl as u32 {
+            vals.push(pow2(k));
+            vals.push(pow2(k) + 1u32);
+        }
+        for x in vals {
+            if c.done() {
+                return;
+            }
+            let x = x & mask(64 * nl as u32);
+            let a = bx(&x, nl);
+            let (z, odd) = (x.is_zero(), x.bit(0));
+            check!(c, call(|| cb(a.is_zero())), z; x, nl);
+            check!(c, call(|| cb(a.is_nonzero())), !z; x, nl);
+            check!(c, call(|| cb(a.is_one())), x.is_one(); x, nl);
+            check!(c, call(|| cb(crypto_bigint::Zero::is_zero(&a))), z; x, nl);
+            check!(c, call(|| Zero::is_zero(&a)), z; x, nl);
+            check!(c, call(|| One::is_one(&a)), x.is_one(); x, nl);
+            check!(c, call(|| cb(Integer::is_odd(&a))), odd; x, nl);
+            check!(c, call(|| cb(Integer::is_even(&a))), !odd; x, nl);
+            check!(c, call(|| opt(NonZero::new(a.clone())).map(|v| xb(v.as_ref()))), if z { None } else { Some(x.clone()) }; x, nl);
+            check!(c, call(|| opt(Odd::new(a.clone())).map(|v| xb(v.as_ref()))), if odd { Some(x.clone()) } else { None }; x, nl);
+            let a2 = bx(&x, nl);
+            let _ = holds!(c, a == a2 && hash_of(&a) == hash_of(&a2), "x == x and hash(x) == hash(copy of x)"; x, nl);
+        }
+    }
+}
+
+fn boxed_select(c: &mut Ctx) {
+    // selection is defined for operands of one precision
+    for nl in [1usize, 2, 3, 4, 5] {
+        let bits = 64 * nl as u32;
+        for (x, y) in c.scaled(5, |c| select_pairs(c, nl)) {
+            let (a, b) = (bx(&x, nl), bx(&y, nl));
+            for t in [false, true] {
+                if c.done() {
+                    return;
+                }
+                let sel = (if t { y.clone() } else { x.clone() }, nl);
+                let swapped = if t { (y.clone(), x.clone()) } else { (x.clone(), y.clone()) };
+                check!(c, call(|| BoxedUint::ct_select(&a, &b, ch(t))).map(|v| (xb(&v), v.nlimbs())), sel.clone(); x, y, nl, t);
+                check!(c, call(|| { let mut r = a.clone(); r.ct_assign(&b, ch(t)); r }).map(|v| (xb(&v), v.nlimbs())), sel.clone(); x, y, nl, t);
+                check!(c, call(|| { let (mut p, mut q) = (a.clone(), b.clone()); BoxedUint::ct_swap(&mut p, &mut q, ch(t)); (xb(&p), xb(&q)) }), swapped; x, y, nl, t);
+                let neg = (if t { (pow2(bits) - &x) & mask(bits) } else { x.clone() }, nl);
+                check!(c, call(|| { let mut r = a.clone(); r.conditional_negate(ch(t)); r }).map(|v| (xb(&v), v.nlimbs())), neg; x, nl, t);
+                let sum = &x + &y;
+                let ok = fits(&sum, bits);
+                if let Some(o) = ok_or_report!(c, call(|| CheckedAdd::checked_add(&a, &b)); x, y, nl) {
+                    check!(c, call(|| (cb(o.is_some()), cb(o.is_none()))), (ok, !ok); x, y, nl);
+                    check!(c, call(|| opt(o).map(|v| (xb(&v), v.nlimbs()))), if ok { Some((sum.clone(), nl)) } else { None }; x, y, nl);
+                }
+                check!(c, call(|| opt(CheckedSub::checked_sub(&a, &b)).map(|v| xb(&v))), if x >= y { Some(&x - &y) } else { None }; x, y, nl);
+            }
+        }
+    }
+}
 
 pub fn cases() -> Vec<Case> {
-    Vec::new()
+    let mut v = Vec::new();
+    ucases!(v, "ct_eq/ct_ne/ct_lt/ct_gt/==/</cmp/partial_cmp/cmp_vartime/Hash", uint_cmp; 1, 2, 3, 4, 6, 16);
+    ucases!(v, "is_zero/is_one/is_odd/is_even/to_nz/to_odd/NonZero::new/Odd::new", uint_predicates; 1, 2, 3, 4, 16);
+    ucases!(v, "conditional_select/ct_select/assign/swap/wrapping_neg_if/CtOption+ConstCtOption coherence", uint_select; 1, 2, 3, 4, 6, 16);
+    icases!(v, "ct_eq/ct_ne/ct_lt/ct_gt/==/</cmp/partial_cmp/cmp_vartime/Hash", int_cmp; 1, 2, 3, 4, 16);
+    icases!(v, "is_negative/is_positive/is_min/is_max/is_zero/is_one/to_nz/to_odd/checked_neg/new_from_abs_sign", int_predicates; 1, 2, 3, 4, 16);
+    icases!(v, "conditional_select/ct_select/assign/swap/wrapping_neg_if/checked_add+checked_sub options", int_select; 1, 2, 3, 4, 16);
+    case!(v, "Limb comparisons/predicates/select/swap/checked options", limb_cmp);
+    case!(v, "ConstChoice TRUE/FALSE/From<Choice>/Into<Choice>/Into<bool>/==", const_choice);
+    case!(v, "BoxedUint comparisons (equal and mixed precisions), Hash at equal precision", boxed_cmp);
+    case!(v, "BoxedUint is_zero/is_nonzero/is_one/is_odd/is_even/NonZero::new/Odd::new", boxed_predicates);
+    case!(v, "BoxedUint ct_select/ct_assign/ct_swap/conditional_negate/checked options", boxed_select);
+    case!(v, "BoxedUint Eq vs Hash [cross-precision hash]", boxed_hash_cross);
+    case!(v, "BoxedUint::cmp_vartime [cross-precision cmp_vartime]", boxed_cmp_vartime_cross);
+    v
 }
